@@ -83,6 +83,12 @@ class Writer:
     def t_integer(self):
         return self.add_type("integer", bytes([25]) + uleb(self.sid("integer")))
 
+    def t_intidx(self):
+        """a constrained integer subtype that admits negative indices (an unconstrained `integer` index has no range:
+        the reader then keeps an array of scalars instead of a vector)"""
+        base = self.t_integer()
+        return self.add_type("int_idx", bytes([34]) + uleb(self.sid("int_idx")) + uleb(base) + bytes([25]) + sleb(-2147483648) + sleb(2147483647))
+
     def t_natural(self):
         base = self.t_integer()
         return self.add_type("natural", bytes([34]) + uleb(self.sid("natural")) + uleb(base) + bytes([25]) + sleb(0) + sleb(2147483647))
@@ -122,11 +128,14 @@ class Writer:
         anon = self.rng.random() < 0.5
         base_name = tname if anon else self.rng.choice([default_base, tname + "_base"])
         elem = self.t_nine(self.rng.choice(["std_ulogic", "std_logic"])) if nine else self.t_bit("bit")
-        bkey = ("vecbase", nine, base_name)
+        # the index type of the unconstrained base: `natural` unless a bound is negative (a sub-range must lie inside the base's range:
+        # the reader asserts it in debug builds, and VHDL demands it)
+        neg = min(left, right) < 0
+        bkey = ("vecbase", nine, base_name, neg)
         if bkey in self.memo:
             base = self.memo[bkey]
         else:
-            base = self.add_type(bkey, bytes([31]) + uleb(self.sid(base_name)) + uleb(elem) + uleb(1) + uleb(self.t_natural()))
+            base = self.add_type(bkey, bytes([31]) + uleb(self.sid(base_name)) + uleb(elem) + uleb(1) + uleb(self.t_intidx() if neg else self.t_natural()))
         body = bytes([35]) + uleb(0 if anon else self.sid(tname)) + uleb(base) + self.rng_bytes(25, d, left, right)
         return self.add_type(key, body)
 
@@ -163,7 +172,7 @@ class Writer:
         if k == "A":
             _, d, left, right, et = t
             elem = self.type_id(et)
-            base = self.add_type(None, bytes([31]) + uleb(self.sid("arr%d" % len(self.types))) + uleb(elem) + uleb(1) + uleb(self.t_natural()))
+            base = self.add_type(None, bytes([31]) + uleb(self.sid("arr%d" % len(self.types))) + uleb(elem) + uleb(1) + uleb(self.t_intidx() if min(left, right) < 0 else self.t_natural()))
             return self.add_type(None, bytes([35]) + uleb(self.sid("sub%d" % len(self.types)) if self.rng.random() < 0.5 else 0) + uleb(base) + self.rng_bytes(25, d, left, right))
         raise ValueError(t)
 
